@@ -157,7 +157,7 @@ def _matches(v, pats):
            "vsc.model.coverpoint_bin_single_wildcard_model.CoverpointBinSingleWildcardModel.sample"],
           api_cases, kind="bounded",
           bound="every (value, mask) pair of 4 (quick) / 6 (thorough) bits incl. values with bits outside the mask, as a single "
-                "wildcard bin and as a wildcard bin array with counts {none,1,2,3}; two-pattern bins; pattern strings in the "
+                "wildcard bin and as a wildcard bin array with counts {none,1,2,3}; two-pattern bins and two-pattern arrays (disjoint / overlapping / contained, both orders); pattern strings in the "
                 "three bases with wildcard digits at every position; every sample value of the coverpoint's type")
 def c_wc_api(c, kind, nb, arg):
     import vsc
@@ -208,6 +208,13 @@ def c_wc_api(c, kind, nb, arg):
             if value % 5 == 0:
                 p2 = [(value, mask), ((value * 3 + 1) % (1 << nb), (mask * 5 + 3) % (1 << nb))]
                 run(lambda: {"w": vsc.wildcard_bin(*p2)}, p2, "single two patterns")
+            if mask != 0 and mask.bit_length() == nb and value % 3 == 0:
+                # two-pattern arrays (both full width): disjoint, overlapping, and one pattern contained in the other
+                for m2, v2 in ((mask | 1, value), (mask | 2, value ^ 2), ((mask * 5 + 3) % (1 << nb) | (1 << (nb - 1)), (value * 3 + 1) % (1 << nb))):
+                    p3 = [(value, mask), (v2, m2)]
+                    for n in (None, 2):
+                        run(lambda: {"w": vsc.wildcard_bin_array([] if n is None else [n], *p3)}, p3, "array two patterns", n)
+                        run(lambda: {"w": vsc.wildcard_bin_array([] if n is None else [n], p3[1], p3[0])}, p3, "array two patterns", n)
     else:
         base = arg
         B, bits, digs = BASES[base]
